@@ -127,6 +127,68 @@ def where_batch(acc, batch):
                               msg=f"targets made by {how}, workflow working_dir {wf_wd}, gwf invoked {inv}: {diff} differ: {json.dumps({k: obs[k] for k in diff})[:400]}")
 
 
+# ------------------------------------------------------------------------------------------- commands from elsewhere
+
+CMD_INITS = ("fresh", "built", "half")
+CMDS = (["run"], ["run", "B"], ["touch"], ["touch", "B"], ["clean", "-f", "--all"], ["clean", "-f"], ["clean", "-f", "--all", "B"], ["cancel", "-f"], ["logs", "A"], ["info"], ["status", "-f", "summary"])
+
+
+def cmd_batch(acc, batch):
+    """Differential oracle (no hand-written expectation): a command started from a nested sub-directory, or from an unrelated directory
+    with -f, leaves exactly the project state and prints exactly the text it does when started from the project root. Decoy files with
+    the declared relative names sit under both other directories and must not be touched."""
+    from mc import cliworld as CW
+
+    for init, cmd in batch:
+        cmd = list(cmd)
+        wf = W.Workflow([W.T("A", ["src"], ["a"], spec="echo A\n"), W.T("B", ["a"], ["out/b"], spec="echo B\n"), W.T("C", ["out/b"], ["c"], spec="echo C\n", protect=["c"])])
+        files = {"src": (1, "s"), "nested/dir/keep": (1, "k")}
+        if init in ("built", "half"):
+            files.update({"a": (2, "a")})
+        if init == "built":
+            files.update({"out/b": (3, "b"), "c": (4, "c")})
+        for p_ in ("src", "a", "out/b", "c"):
+            files["nested/dir/" + p_] = (1, "decoy:" + p_)
+        hashes = {n: W.sha1(f"echo {n}\n") for n in (("A",) if init == "half" else ("A", "B", "C") if init == "built" else ())}
+        w0 = W.World(wf, files=files, conf={"backend": "slurm", "use_spec_hashes": True}, hashes=hashes, logs={"A.stdout": "log of A\n"})
+        if init == "half":
+            w0, _ = CW.apply_action(w0, ("gwf", ["run", "B"]))
+        obs = {}
+        for inv in ("root", "nested", "unrelated_rel"):
+            with W.Session(w0) as s:
+                other = os.path.join(s.dir, "elsewhere")
+                os.makedirs(other, exist_ok=True)
+                for p_ in ("src", "a", "out/b", "c"):
+                    os.makedirs(os.path.dirname(os.path.join(other, p_)), exist_ok=True)
+                    with open(os.path.join(other, p_), "w") as f:
+                        f.write("decoy:" + p_)
+                if inv == "root":
+                    cwd, pre = s.proj, []
+                elif inv == "nested":
+                    cwd, pre = os.path.join(s.proj, "nested", "dir"), []
+                else:
+                    cwd, pre = other, ["-f", "../proj/workflow.py"]
+                r = s.gwf(pre + cmd, cwd=cwd)
+                acc.extra["invocations"] += 1
+                after = s.snapshot()
+                decoys = {p_: (open(os.path.join(other, p_)).read() if os.path.exists(os.path.join(other, p_)) else None) for p_ in ("src", "a", "out/b", "c")}
+                stray = sorted(os.path.relpath(os.path.join(dp, d), s.dir) for dp, dns, _ in os.walk(s.dir) for d in dns if d == ".gwf")
+                scrub = lambda t: t.replace(os.path.realpath(s.proj), "<proj>").replace(s.proj, "<proj>").replace(s.dir, "<tmp>")
+                jobs = [(j["name"], sorted(after.sim["jobs"][d]["name"] for d in j.get("must_wait", []) if d in after.sim["jobs"]), j["state"]) for j in (after.sim["jobs"][i] for i in after.sim["order"])]
+                obs[inv] = dict(exit=r.exit_code, exc=r.exc, out=scrub(r.stdout), state=json.loads(scrub(json.dumps(after.semantic(), sort_keys=True, default=str))), jobs=jobs, decoys=decoys, gwfdirs=stray)
+        for inv in ("nested", "unrelated_rel"):
+            case = dict(kind="cmd", init=init, cmd=cmd, invoke=inv)
+            same = obs[inv] == obs["root"]
+            acc.case(key=json.dumps(case), outcome=f"{cmd[0]}:{'same' if same else 'diff'}:exit{obs['root']['exit']}", sample=case)
+            if not same:
+                diff = [k for k in obs["root"] if obs[inv][k] != obs["root"][k]]
+                acc.violation(sig=dict(kind="cmd", cmd=cmd[0], invoke=inv, diff=diff[0]), case=case, expected=obs["root"], observed=obs[inv],
+                              msg=f"`gwf {' '.join(cmd)}` on the {init} project started from {inv} differs from the same command started in the project root in {diff}: "
+                                  f"{json.dumps({k: [obs['root'][k], obs[inv][k]] for k in diff}, default=str)[:500]}")
+        if obs["root"]["exc"] or any(v is None or not v.startswith("decoy:") for v in obs["root"]["decoys"].values()):
+            acc.violation(sig=dict(kind="cmd", cmd=cmd[0], invoke="root", diff="crash"), case=dict(kind="cmd", init=init, cmd=cmd, invoke="root"), observed=obs["root"], msg=f"`gwf {' '.join(cmd)}` from the root: {obs['root']['exc']}")
+
+
 # ------------------------------------------------------------------------------------------- names
 
 NAMES = {
@@ -308,12 +370,13 @@ def run(ctx):
     import mc.checks.c19 as me
 
     ctx.pmap(me, "where_batch", [(h, w) for h in HOWS for w in WF_WDS], chunk=1)
+    ctx.pmap(me, "cmd_batch", [(i, c) for i in CMD_INITS for c in CMDS], chunk=2)
     ctx.pmap(me, "names_batch", list(NAMES), chunk=4)
     ctx.pmap(me, "paths_batch", path_values(), chunk=8)
     ctx.pmap(me, "map_batch", [(k, n, nm, ex, ck) for k in ("str", "tuple", "dict") for n in range(0, 4) for nm in ("none", "string", "function", "function_dup") for ex in (False, True)
                                for ck in ("function", "instance")], chunk=8)
-    ctx.rule = "where: (creation way, workflow working_dir, invoking directory); names: (name, entry point); paths: (value, container, side); map: (item kind, n, naming, extra, callable kind)"
-    ctx.bound = dict(hows=len(HOWS), wf_wds=len(WF_WDS), invoke=len(INVOKE), names=len(NAMES), path_values=len(path_values()), containers=len(CONTAINERS))
+    ctx.rule = "where: (creation way, workflow working_dir, invoking directory); cmd: (initial project state, command, invoking directory) compared with the same command from the project root; names: (name, entry point); paths: (value, container, side); map: (item kind, n, naming, extra, callable kind)"
+    ctx.bound = dict(hows=len(HOWS), wf_wds=len(WF_WDS), invoke=len(INVOKE), cmd_inits=list(CMD_INITS), cmds=len(CMDS), names=len(NAMES), path_values=len(path_values()), containers=len(CONTAINERS))
     ctx.assumptions = ["dotted / non-ASCII names are not demanded either way ('identifier-like')", "in-process invocation with os.chdir per case (fresh-process tier: see DESIGN §3.7)"]
 
 
@@ -324,6 +387,9 @@ def replay(case):
     k = case["kind"]
     if k == "where":
         where_batch(acc, [(case["how"], case["wf_wd"])])
+        return [v for v in acc.violations if v["case"]["invoke"] == case["invoke"]]
+    if k == "cmd":
+        cmd_batch(acc, [(case["init"], case["cmd"])])
         return [v for v in acc.violations if v["case"]["invoke"] == case["invoke"]]
     if k == "names":
         names_batch(acc, [case["name"]] if case["name"] in NAMES else [])
